@@ -716,6 +716,15 @@ func (g *tkGen) edit(hostileActor bool) (rig.Tx, bool) {
 		mintable = tokentypes.True
 		tag.Var += "+mintable=true"
 	}
+	// the field is a string on the wire: every spelling the standard parser reads is a valid way of saying true or false
+	if mintable != tokentypes.Nil && rng.Intn(3) == 0 {
+		if mintable == tokentypes.False {
+			mintable = tokentypes.Bool(pick(rng, "False", "FALSE", "0", "f", "F"))
+		} else {
+			mintable = tokentypes.Bool(pick(rng, "True", "TRUE", "1", "t", "T"))
+		}
+		tag.Var += "(other spelling)"
+	}
 	return g.mk(a, tag, &v1.MsgEditToken{Symbol: t.Symbol, Name: name, MaxSupply: max, Mintable: mintable, Owner: a.Addr.String()})
 }
 
@@ -1452,7 +1461,7 @@ func (d *tkC09) accepted(br *rig.BlockRecord, tx *rig.TxRecord, tag *tkTag, pre,
 			mt.Name = msg.Name
 		}
 		if msg.Mintable != tokentypes.Nil {
-			mt.Mintable = msg.Mintable.ToBool()
+			mt.Mintable, _ = strconv.ParseBool(string(msg.Mintable)) // (the reference reads the field itself, not through the module's helper)
 		}
 		if len(mt.Prev) >= 2 {
 			run.Count("owner-after-2-transfers-ok", 1)
